@@ -47,9 +47,38 @@ PROPS = {
                   "distinct on (layout, mapper state before the step, event)", {}, {}),
 }
 
+LOOP_NOTE = ("Trusted: the scripted-driver adapter hook, the virtual clock (clock_gettime defined by the harness binary; a real-clock bracket run guards the assumption that the loop "
+             "reads time only through it), the 60-line loop-contract reference, which uses the real Mapper for key semantics. Schedules are sampled.")
+LOOP_ASSUME = ["the loop reads time only through clock_gettime", "edge-triggered readiness as modelled by the scripted world (arrivals at poll, trickle during a drain, phantom readiness)",
+               "schedules and histories are sampled; at most 4 (quick) / 5 (thorough) keys held"]
+
+def loop(level, rule, floors_q, floors_t, text, technique, evaluations=("schedules", "metamorphic_runs")):
+    return {"engine": "loop", "level": level, "evaluations": list(evaluations), "rule": rule, "floors": {"quick": floors_q, "thorough": floors_t},
+            "assumptions": LOOP_ASSUME, "level_text": text, "level_note": LOOP_NOTE, "design_ref": "3.2", "technique": technique}
+
+PROPS["C10"] = loop("exploration",
+    "one evaluation = one execution of the real per-device loop against a scripted schedule (random chunking of a key history, tablet events, spurious time-outs, one interruption, phantom readiness, trickling arrivals, end-of-device at any position) "
+    "or one metamorphic run (same history, another split); non-trivial = a schedule with a wake-up delivering >= 2 events or both devices; distinct on (layout, schedule)", {}, {},
+    "Offline checker over the boundary log of every driver call against the loop contract (expected write after every consumed event, nothing unread at poll, nothing after end-of-device) plus a metamorphic comparison of the written payloads over splits of the same history.",
+    "runtime monitoring: boundary-log checker against an executable loop contract + metamorphic re-chunking, virtual clock")
+PROPS["C11"] = loop("exploration",
+    "one evaluation = one execution of the real loop against a scripted schedule with delays long enough for timer ticks (virtual clock, optional injected lateness of 3/40 ms); non-trivial = a schedule in which at least one timer tick occurred; distinct on (layout, schedule, lateness)", {}, {},
+    "Offline checker: every poll time-out must equal next_wakeup - now (1 ms when overdue) with next_wakeup carried forward by addition only, every time-out with a pending repeat must be followed by exactly the chord of not-yet-held keys, any acted key event or tablet event cancels. Exact on the virtual clock; a small real-clock run checks a load-independent lower bracket.",
+    "runtime monitoring: boundary-log checker with a virtual clock (exact time-outs) and a real-clock bracket run", evaluations=("schedules", "real_clock_runs"))
+PROPS["C12"] = loop("exploration",
+    "one evaluation = one execution of the real loop against a schedule with tablet on/off events (repeated, alone or in the same wake-up as keyboard events in both flag orders, while chords are held or a repeat is pending); non-trivial = a schedule with at least one switch-on; distinct on (layout, schedule, lateness)", {}, {},
+    "Offline checker: switch-on must be followed by exactly the release of everything held and nothing else may be written until switch-off; after switch-off the writes must equal those of a fresh Mapper fed the post-off events.",
+    "runtime monitoring: boundary-log checker against an executable loop contract, virtual clock", evaluations=("schedules",))
+PROPS["C20"] = loop("fault_enumeration",
+    "one evaluation = one execution of the real loop with the k-th driver call (register, poll, read keyboard, read tablet, send) failing, for every k of the fault-free run of a sampled (layout, history, schedule) (every k-th when the run has > 120 calls in quick); non-trivial/distinct = (layout, schedule, k) whose fault point was reached", {}, {},
+    "Fault enumeration: for each sampled schedule the fault-free run counts its driver calls n, then the run is repeated n times with call k returning an error; the loop must return that error, write nothing afterwards and stop within 64 calls.",
+    "runtime monitoring with fault injection at every driver call in turn; oracle on the boundary log", evaluations=("fault_runs",))
+
 ENGINES = [
     {"name": "mapper", "path": "/verif/harness/src/mapper_mon.rs", "serves_properties": ["C01", "C02", "C03", "C04", "C05", "C06", "C07", "C08", "C09", "C19"],
      "kind_free_text": "online monitors around Mapper::step/release_all; seeded random walks with frontier restarts from hook snapshots"},
+    {"name": "loop", "path": "/verif/harness/src/loop_mon.rs", "serves_properties": ["C10", "C11", "C12", "C20"],
+     "kind_free_text": "the real per-device loop under a scripted world (virtual clock, boundary log, fault injection) + offline log checker"},
 ]
 
 NOT_APPLICABLE = [
